@@ -6,6 +6,7 @@
       Text.pyText t v = Text.cppText t v
 -/
 import ProphyModel.Text
+import ProphyModel.Generated.CppPrinter
 namespace Prophy.C18
 open Prophy Prophy.Text
 
@@ -259,4 +260,25 @@ example : okField .plain
                   .mk "u" (.union "U" [.mk "x" 1 (.prim .i64)]) .plain])
     (.struct [.bytes [39, 34, 92, 200], .int 255, .arr [.int 5, .int 0], .union 0 (.int (-1))]) = true := by
   decide
+/-- print_byte as T1 reads it off printer.hpp on every run: the switch, then the printable range,
+    else `\\xNN` -/
+def cppByteFromSource (b : UInt8) : String :=
+  match Generated.cppByteEscapes.lookup b.toNat with
+  | some s => s
+  | none =>
+    if Generated.cppPrintableLo ≤ b.toNat ∧ b.toNat ≤ Generated.cppPrintableHi then String.ofList [Char.ofNat b.toNat]
+    else hexEscape b
+
+theorem cppByte_table_all :
+    (List.range 256).all (fun n => cppByte (UInt8.ofNat n) == cppByteFromSource (UInt8.ofNat n)) = true := by
+  decide +kernel
+
+/-- T1 obligation: the model of `print_byte` is the function the header defines, for all 256 bytes
+    (an edit of the escapes or of the printable range in printer.hpp breaks this theorem) -/
+theorem C18_cppByte_is_source (b : UInt8) : cppByte b = cppByteFromSource b := by
+  have h := List.all_eq_true.1 cppByte_table_all b.toNat (List.mem_range.2 b.toNat_lt)
+  have hb : UInt8.ofNat b.toNat = b := by simp
+  rw [hb] at h
+  simpa using h
+
 end Prophy.C18
